@@ -3,6 +3,7 @@ package main
 import (
 	"fmt"
 	"go/token"
+	"go/types"
 	"os"
 	"path/filepath"
 	"regexp"
@@ -423,6 +424,91 @@ func checkC02(c *Ctx, r *Report) {
 	checkDebExtras(c, r, pa)
 	checkArchTables(c, r)
 	checkVersionMust(c, r)
+	// the components the version strings are composed from: nothing embedded
+	// in `version` is lost by the semver split (shared with C14-D8)
+	if wd := c.Func("", "WithDefaults"); wd != nil {
+		for _, fn := range sortedFuncs(c, c.Reach(wd)) {
+			forEachInstr(fn, func(in ssa.Instruction) {
+				if call, ok := in.(*ssa.Call); ok && calleeIs(call, semverPath, "", "NewVersion") {
+					checkSplitIndependence(c, r, fn, call, "F6-split")
+				}
+			})
+		}
+	}
+	checkDescriptionHelpers(c, r, pa)
+}
+
+// checkDescriptionHelpers (F3-desc): in the deb/ipk description helper a
+// line counts as blank (and is rendered as " .") when it is empty after
+// whitespace trimming: every emptiness test on a line must be applied to a
+// TrimSpace'd value.
+func checkDescriptionHelpers(c *Ctx, r *Report, pa *provAnalysis) {
+	n := 0
+	for _, format := range []string{"deb", "ipk"} {
+		pk := c.PackagerByFormat(format)
+		if pk == nil {
+			continue
+		}
+		for _, ti := range templateConstants(c, c.Reach(pk.Package)) {
+			for _, f := range templateFuncs(c, ti.Fn, "multiline") {
+				n++
+				tests, bad := 0, 0
+				forEachInstr(f, func(in ssa.Instruction) {
+					bo, ok := in.(*ssa.BinOp)
+					if !ok || (bo.Op != token.EQL && bo.Op != token.NEQ) {
+						return
+					}
+					var x ssa.Value
+					if k, ok := bo.Y.(*ssa.Const); ok && k.Value != nil {
+						if (isConstString(bo.Y) && constString(k) == "") || (k.Value.Kind().String() == "Int" && k.Int64() == 0) {
+							x = bo.X
+						}
+					}
+					if x == nil {
+						return
+					}
+					// the tested value: strip len() and conversions; it must be
+					// the result of TrimSpace itself (a trim of the whole text
+					// before it is split into lines does not count)
+					v := x
+					isLen := false
+					for i := 0; i < 4; i++ {
+						switch y := v.(type) {
+						case *ssa.Call:
+							if b, ok := y.Call.Value.(*ssa.Builtin); ok && b.Name() == "len" {
+								v = y.Call.Args[0]
+								isLen = true
+								continue
+							}
+						case *ssa.Convert:
+							v = y.X
+							continue
+						}
+						break
+					}
+					if !isLen && !isConstString(bo.Y) {
+						return
+					}
+					if _, isStr := v.Type().Underlying().(*types.Basic); !isStr {
+						if _, isSlice := v.Type().Underlying().(*types.Slice); !isSlice {
+							return
+						}
+					}
+					tests++
+					trimmed := false
+					if call, ok := v.(*ssa.Call); ok && (calleeIs(call, "bytes", "", "TrimSpace") || calleeIs(call, "strings", "", "TrimSpace")) {
+						trimmed = true
+					}
+					if !trimmed {
+						bad++
+					}
+				})
+				r.Check(tests > 0 && bad == 0, "F3-desc", format+": blank-line test in the description helper", c.pos(f.Pos()),
+					fmt.Sprintf("%d emptiness test(s), %d of them on an untrimmed line: a whitespace-only line would be emitted as a bare continuation line, which ends the control stanza for other parsers", tests, bad))
+			}
+		}
+	}
+	r.Floor("F3-desc", n, 2)
 }
 
 // checkIPKReserved: every label the ipk template can emit is in the list of
